@@ -42,7 +42,7 @@ FSTEST_MSG = re.compile(r"mismatch|IsDir\(\)")
 def mc(ctx, variant, consts, must_pass):
     wd = ctx.stage("mc_" + variant, FAMS)
     rig.write_cfg(wd / "MC_FilesFS.cfg", constants=dict(consts, Variant=variant), invariants=MC_INVS)
-    r = ctx.tlc(wd, "MC_FilesFS", workers=4, timeout=1500, coverage=(not ctx.quick and variant == "fixed"), must_pass=must_pass)
+    r = ctx.tlc(wd, "MC_FilesFS", workers=2, timeout=1500, coverage=(not ctx.quick and variant == "fixed"), must_pass=must_pass)
     return wd, r
 
 
@@ -117,12 +117,15 @@ NONEMPTY_DATA = re.compile(r'"data":\[\d')
 ID_FIELD = re.compile(r'"id":\d+,')
 
 
-def corruptions(cands, accepted_ids):
+def corruptions(cands, accepted_ids, entry_only_ids):
     """Sensitivity self-test inputs: real observations, each with one logged fact falsified, paired with the causes
     the judge must report.  The falsified step is the FIRST step of the sequence (so nothing before it can be the
     reason of the rejection) or the observation was accepted by the judge before the corruption."""
     acc = [o for o in cands if o["id"] in accepted_ids and all(r["op"] != "close" for r in o["res"])]
-    first_ents = [o for o in cands if o["res"] and o["res"][0]["op"] == "readdir" and len(o["res"][0]["ents"]) >= 2]
+    # (names and paging are judged before entry attributes: an observation rejected only for an attribute of an
+    #  entry - the known findings - still has an accepted list of names to corrupt)
+    first_ents = [o for o in cands if (o["id"] in accepted_ids or o["id"] in entry_only_ids)
+                  and o["res"] and o["res"][0]["op"] == "readdir" and len(o["res"][0]["ents"]) >= 2]
     data = [o for o in acc if any(r["op"] == "read" and r["data"] for r in o["res"])]
     stat = [o for o in acc if any(r["op"] == "stat" and r["err"] == "nil" for r in o["res"])]
     missing = [o for o in acc if o["open"]["err"] == "notexist"]
@@ -245,19 +248,19 @@ def run(ctx, replay_case=None):
     det = [ln for ln in lines if obs_id(ln) < 1000000000]      # the cases exported by TLC (not the seeded random ones)
     if replay_case is None:
         # model drift (diagnostic): which transcription of files.go predicts the observations (sample of exported cases)
-        sample = rnd.sample(det, min(len(det), ctx.pick(1500, 20000)))
+        sample = rnd.sample(det, min(len(det), ctx.pick(1000, 20000)))
         dfut = pool.submit(judge_lines, ctx, "drift", sample, "drift")
         # candidates for the sensitivity self-test (judged first: only accepted observations are corrupted)
-        cand = rnd.sample(det, min(len(det), 600))
-        cfut = pool.submit(judge_all_accepted, ctx, cand)
+        cand = rnd.sample(det, min(len(det), 500))
     results = [f.result() for f in futs]
     bads = [b for bs, _ in results for b in bs]
     stats = merge_stats([st for _, st in results])
     ctx.cov.update(judged_bad_first_pass=stats["nbad"], ref_undefined=stats["ref_undefined"], rejected_by_cause=stats["causes"])
     sm = [json.loads(ln) for ln in rnd.sample(lines, min(n, 400))]
     ctx.cov["samples"] = [show(o) for o in rig.pick_samples([o for o in sm if nontrivial(o)] or sm, 3, ctx.seed)]
-    # 4. reproduction guard (fresh process), then oracle guard (fstest, violation path only)
-    confirmed = []
+    # 4. reproduction guard (fresh process), then oracle guard (fstest, violation path only).  The same TLC run
+    #    also judges the self-test candidates exhaustively (keep=all), to know which of them are accepted.
+    confirmed, colines = [], []
     if bads:
         byid = {}
         for b in bads:
@@ -265,8 +268,14 @@ def run(ctx, replay_case=None):
         cc, co = ctx.work / "confirm_cases.ndjson", ctx.work / "confirm_obs.ndjson"
         rig.write_ndjson(cc, list(byid.values()))
         ctx.drive("c23", cc, co)
-        b2, _ = judge(ctx, "trace_confirm", co, keep=1000000)
-        again = {(b["id"], b["sig"]["cause"]) for b in b2}
+        colines = co.read_text().splitlines(keepends=True)
+    cand = cand if replay_case is None else []
+    if colines or cand:
+        b2, _ = judge_lines(ctx, "trace_confirm", colines + cand, keep=1000000)
+        again = {(b["id"], b["sig"]["cause"]) for b in b2 if b["k"] <= len(colines)}
+        dead = {b["k"] - 1 - len(colines): b["sig"]["cause"] for b in b2 if b["k"] > len(colines)}
+        acc_ids = {obs_id(ln) for i, ln in enumerate(cand) if i not in dead}
+        entry_ids = {obs_id(ln) for i, ln in enumerate(cand) if dead.get(i, "").startswith("entry-")}
         confirmed = [b for b in bads if (b["id"], b["sig"]["cause"]) in again]
         ctx.cov["unreproduced"] = len(bads) - len(confirmed)
         confirmed = fstest_guard(ctx, confirmed)
@@ -278,15 +287,17 @@ def run(ctx, replay_case=None):
                                   "mismatch_with_model_of_files_go_as_written": dc.get("drift-both", 0) + dc.get("drift-as_written", 0),
                                   "mismatch_with_model_of_proposed_fix": dc.get("drift-both", 0) + dc.get("drift-fixed", 0)}
         # 5. sensitivity self-test: falsified copies of accepted observations must be rejected
-        st = corruptions([json.loads(ln) for ln in cand], cfut.result())
-        if len(st) < 4:
-            raise Infra("sensitivity self-test: too few observations to corrupt")
-        b3, _ = judge(ctx, "trace_selftest", write_tmp(ctx, "selftest_obs.ndjson", [o for o, _ in st]), keep=1000000)
-        got = {b["id"]: b["sig"]["cause"] for b in b3}
-        hit = [o["id"] for o, want in st if got.get(o["id"]) in want]
-        ctx.cov["sensitivity_selftest"] = {"corrupted": len(st), "rejected": len(hit), "causes": sorted(set(got.values()))}
-        if len(hit) < len(st):
-            raise Infra(f"sensitivity self-test failed: {len(st)} corrupted observations, {len(hit)} rejected for the expected reason: {got}")
+        st = corruptions([json.loads(ln) for ln in cand], acc_ids, entry_ids)
+        selftest_error = None
+        if not st:
+            selftest_error = "sensitivity self-test: no observation to corrupt"
+        else:
+            b3, _ = judge(ctx, "trace_selftest", write_tmp(ctx, "selftest_obs.ndjson", [o for o, _ in st]), keep=1000000)
+            got = {b["id"]: b["sig"]["cause"] for b in b3}
+            hit = [o["id"] for o, want in st if got.get(o["id"]) in want]
+            ctx.cov["sensitivity_selftest"] = {"corrupted": len(st), "rejected": len(hit), "causes": sorted(set(got.values()))}
+            if len(hit) < len(st):
+                selftest_error = f"sensitivity self-test failed: {len(st)} corrupted observations, {len(hit)} rejected for the expected reason: {got}"
         # 6. background model checks
         _, rf = bg["fixed"].result()
         _, rw_ = bg["as_written"].result()
@@ -306,14 +317,10 @@ def run(ctx, replay_case=None):
     def rw(rdir, b):
         (rdir / "case.json").write_text(json.dumps(case_of(b["obs"])))
         (rdir / "obs.json").write_text(json.dumps(b["obs"]))
-    return ctx.report(confirmed, replay_writer=rw)
-
-
-def judge_all_accepted(ctx, cand_lines):
-    """The ids of the observations among cand_lines that the judge accepts."""
-    b, _ = judge_lines(ctx, "trace_selftest_pre", cand_lines, keep=1000000)
-    dead = {x["k"] - 1 for x in b}
-    return {obs_id(ln) for i, ln in enumerate(cand_lines) if i not in dead}
+    rc = ctx.report(confirmed, replay_writer=rw)
+    if replay_case is None and selftest_error and rc == 0:
+        raise Infra(selftest_error)      # (with a confirmed violation the verdict stands; the self-test result is in evidence)
+    return rc
 
 
 def obs_id(line):
